@@ -59,7 +59,16 @@ def conservation(case):
     if St is None:
         return {"evals": 0, "nontrivial": False, "skipped": "no draw inside the conditioning guard"}
     nx, ny = St["nx"], St["ny"]
-    z, prof = St["z"], St["profiles"]
+    intz = False
+    if St["pdesc"]["kind"] == "constant" and case["idx"] % 3 == 1:
+        # the same kind of column on an integer-valued height grid handed over with an integer dtype (heights in whole metres)
+        zi = np.cumsum(rng.integers(1, 4, size=len(St["z"]))).astype(np.int64)
+        kx_, ky_, _, _ = gen.wavenumbers(nx, ny, St["dx"], St["dy"], St["px"], St["py"], St["modes"])
+        Gi = gen.growth(zi.astype(float), St["profiles"], kx_, ky_)
+        if Gi <= gen.G_MAX:
+            St = dict(St, z=zi, G=Gi, cr=gen.conductance_ratio(zi.astype(float), St["profiles"]))
+            intz = True
+    z, prof = np.asarray(St["z"], dtype=float), St["profiles"]
     Kz = np.asarray(prof[4], dtype=float)
     nz = len(z)
     prec = "double" if rng.random() < 0.7 else "single"
@@ -71,8 +80,15 @@ def conservation(case):
     desc = gen.describe(St)
     q0, skind = _nonzero_mean_source(rng, ny, nx)
     bg = float(rng.choice([0.0, rng.normal() * 5]))
+    bg_arg = bg
+    if case["idx"] % 4 == 2:  # a background given as a whole number (Python int / numpy integer), e.g. 400 ppm
+        bg = float(rng.integers(-5, 420))
+        bg_arg = [int, np.int64, np.int32][case["idx"] % 3](bg)
+        counters["integer_typed_background"] = 1
+    if intz:
+        counters["integer_typed_heights"] = 1
     analytic = St["pdesc"]["kind"] == "constant" and rng.random() < 0.4
-    _, conc, flx = solve.solve(St, q0, levels, srf_bg_conc=bg, precision=prec, analytic=analytic)
+    _, conc, flx = solve.solve(St, q0, levels, srf_bg_conc=bg_arg, precision=prec, analytic=analytic)
     counters["solver_calls"] += 1
     conc, flx = solve.as3d(conc, nl), solve.as3d(flx, nl)
     qm = float(q0.mean())
